@@ -229,6 +229,7 @@ def cfg(tier, seed):
     out.append(dict(d=2, N=3, F=1, K=2, types=[1, 1, 2], cell="sym-o", ppp=opn2, Bmax=2))
     out.append(dict(d=3, N=3, F=1, K=2, types=[1, 2, 2], cell="sym-o", ppp=[1, 1, 1], Bmax=1))
     out.append(dict(d=3, N=2, F=1, K=1, types=[1, 1], cell="sym-o", ppp=[1, 1, 0], Bmax=2))
+    out.append(dict(d=2, N=3, F=1, K=2, types=[1, 2, 1], cell="t-", ppp=per2, Bmax=2))      # triclinic, negative tilt
     # ladders for K = 4, 5, 6: types 1..K once plus one extra particle
     for K in (4, 5, 6):
         base = list(range(1, K + 1))
